@@ -9,7 +9,7 @@
    malformed beyond these rules (illegal bytes, whitespace, version syntax, CRLF discipline) is decided against the
    code by the correspondence and the by-construction oracle over mutation classes. *)
 From Via Require Import M_Char M_Parse M_Receive P_Parse P_C02.
-From Via Require Import M_Imp M_Loop M_Hdr Gen_Parse P_Imp P_Loop P_Hdr P_Frag.
+From Via Require Import M_Imp M_Loop M_Hdr M_Msg Gen_Parse P_Imp P_Loop P_Hdr P_Frag P_Msg.
 Local Open Scope N_scope.
 
 Theorem C02_head_error_is_invalid : forall cfg v buf q1 rest,
@@ -220,3 +220,9 @@ Example C02_header_block_source_example :
   end.
 Proof. vm_compute. split; reflexivity. Qed.
 Print Assumptions C02_header_block_is_the_source.
+
+Theorem C02_request_head_is_the_source : forall L q buf fuel, hd_ok (rq_headers q) -> (length buf + 2 <= fuel)%nat ->
+  mrun (rl_lim L) (fl_lim L) (hd_lim L) (rl_code_of L) (hd_code_of L) fuel rq_parse_src (rq_store q) buf =
+  Some (let '(q', rest, p) := rq_parse L q buf in (is_done p, rq_store q', rest)).
+Proof. exact rq_parse_is_the_source. Qed.
+Print Assumptions C02_request_head_is_the_source.
